@@ -144,6 +144,21 @@ enum AssignDestination {
     Local(VPtr),
     UpValue(u64, VPtr),
     Global(VPtr),
+    /// An element of a captured or global tuple/record: the pointer leads into a copy of
+    /// the whole value, which is stored back once the element has been written.
+    CopiedElement(VPtr, AggregateCopy),
+}
+/// A captured variable and a global variable have no address in the current function.
+/// To write one of their elements the whole value is fetched into `copy` (of type `ty`),
+/// and `home` tells where it came from and has to be stored back to.
+struct AggregateCopy {
+    home: AggregateHome,
+    copy: VPtr,
+    ty: TypeNodeId,
+}
+enum AggregateHome {
+    UpValue(u64),
+    Global(VPtr),
 }
 impl Context {
     fn canonical_record_type_id(&self, ty: TypeNodeId) -> TypeNodeId {
@@ -1579,7 +1594,7 @@ impl Context {
                     })
                 }
                 _ => {
-                    let ptr = self.eval_expr_as_address(e);
+                    let (ptr, _) = self.eval_expr_as_address(e);
                     self.push_inst(Instruction::Load(ptr, t))
                 }
             },
@@ -1632,18 +1647,18 @@ impl Context {
                 }
             }
             Expr::Proj(expr, idx) => {
-                let base_ptr = self.eval_expr_as_address(expr);
+                let (base_ptr, copied) = self.eval_expr_as_address(expr);
                 let tuple_ty_id = self.typeenv.infer_type(expr).unwrap();
                 let ptr = self.push_inst(Instruction::GetElement {
                     value: base_ptr.clone(),
                     ty: tuple_ty_id,
                     tuple_offset: idx as u64,
                 });
-                AssignDestination::Local(ptr)
+                Self::element_destination(ptr, copied)
             }
             Expr::FieldAccess(expr, accesskey) => {
                 // For a field access, we need to calculate the pointer to the field.
-                let base_ptr = self.eval_expr_as_address(expr);
+                let (base_ptr, copied) = self.eval_expr_as_address(expr);
 
                 let record_ty_id = self.typeenv.infer_type(expr).unwrap();
                 let record_ty_id = self.canonical_record_type_id(record_ty_id);
@@ -1661,7 +1676,7 @@ impl Context {
                         ty: record_ty_id,
                         tuple_offset: offset as u64,
                     });
-                    AssignDestination::Local(ptr)
+                    Self::element_destination(ptr, copied)
                 } else {
                     panic!("Expected record type for field access assignment, but got {record_ty}");
                 }
@@ -1673,8 +1688,33 @@ impl Context {
         }
     }
 
+    fn element_destination(ptr: VPtr, copied: Option<AggregateCopy>) -> AssignDestination {
+        match copied {
+            Some(copied) => AssignDestination::CopiedElement(ptr, copied),
+            None => AssignDestination::Local(ptr),
+        }
+    }
+
     fn eval_assign(&mut self, assignee: ExprNodeId, src: VPtr, t: TypeNodeId) {
         match self.eval_destination_ptr(assignee) {
+            AssignDestination::CopiedElement(ptr, AggregateCopy { home, copy, ty }) => {
+                // A one-word aggregate is its only element: the new value replaces it as a
+                // whole (the back ends keep such a value in a register, not behind a pointer).
+                let copy = if ty.word_size() == 1 && t.word_size() == 1 {
+                    src
+                } else {
+                    self.push_inst(Instruction::Store(ptr, src, t));
+                    copy
+                };
+                match home {
+                    AggregateHome::UpValue(upi) => {
+                        self.push_inst(Instruction::SetUpValue(upi, copy, ty))
+                    }
+                    AggregateHome::Global(global) => {
+                        self.push_inst(Instruction::SetGlobal(global, copy, ty))
+                    }
+                };
+            }
             AssignDestination::Local(value) => {
                 self.push_inst(Instruction::Store(value, src, t));
             }
@@ -1941,18 +1981,37 @@ impl Context {
         (dst, alloc_ty, states)
     }
     /// Evaluates an expression as an l-value, returning a pointer to its memory location.
-    fn eval_expr_as_address(&mut self, e: ExprNodeId) -> VPtr {
+    /// When the location belongs to a captured or a global variable, the pointer leads into
+    /// a copy of that variable and the second component says where to store the copy back.
+    fn eval_expr_as_address(&mut self, e: ExprNodeId) -> (VPtr, Option<AggregateCopy>) {
         match e.to_expr() {
             Expr::Var(name) => {
                 // do not load here
                 match self.lookup(&name) {
-                    LookupRes::Local(ptr) => ptr,
-                    LookupRes::Global(ptr) => ptr,
-                    _ => unreachable!("Cannot get address of this expression"),
+                    LookupRes::Local(ptr) => (ptr, None),
+                    LookupRes::Global(ptr) if !matches!(ptr.as_ref(), Value::Global(_)) => {
+                        (ptr, None)
+                    }
+                    LookupRes::Global(global) => {
+                        let ty = self.typeenv.infer_type(e).unwrap();
+                        let ty = self.canonical_record_type_id(ty);
+                        let copy = self.push_inst(Instruction::GetGlobal(global.clone(), ty));
+                        let home = AggregateHome::Global(global);
+                        (copy.clone(), Some(AggregateCopy { home, copy, ty }))
+                    }
+                    LookupRes::UpValue(_level, upvalue) => {
+                        let ty = self.typeenv.infer_type(e).unwrap();
+                        let ty = self.canonical_record_type_id(ty);
+                        let upi = self.get_current_fn().get_or_insert_upvalue(&upvalue) as u64;
+                        let copy = self.push_inst(Instruction::GetUpValue(upi, ty));
+                        let home = AggregateHome::UpValue(upi);
+                        (copy.clone(), Some(AggregateCopy { home, copy, ty }))
+                    }
+                    LookupRes::None => unreachable!("Cannot get address of this expression"),
                 }
             }
             Expr::FieldAccess(base_expr, accesskey) => {
-                let base_ptr = self.eval_expr_as_address(base_expr);
+                let (base_ptr, copied) = self.eval_expr_as_address(base_expr);
 
                 let record_ty_id = self.typeenv.infer_type(base_expr).unwrap();
                 let record_ty = record_ty_id.to_type();
@@ -1963,11 +2022,12 @@ impl Context {
                         .position(|f| f.key == accesskey)
                         .expect("Field not found");
 
-                    self.push_inst(Instruction::GetElement {
+                    let ptr = self.push_inst(Instruction::GetElement {
                         value: base_ptr,
                         ty: record_ty_id,
                         tuple_offset: offset as u64,
-                    })
+                    });
+                    (ptr, copied)
                 } else {
                     panic!("Cannot access field on a non-record type");
                 }
